@@ -155,9 +155,9 @@ Init ==
 
 \* every action ends here
 Commit(op, s2, err) ==
+    /\ Observe(op, s2, err)      \* first: a trace spec can reject the candidate before s2 is computed
     /\ st' = s2
     /\ n' = n + 1
-    /\ Observe(op, s2, err)
 Go(name) == n < Depth /\ name \in Ops
 RoomD(k) == Len(st.drops) + k <= MaxDrops
 RoomE(k) == Len(st.ems) + k <= MaxEms
